@@ -107,7 +107,12 @@ class Mixin(Node):
                         return None
                     # the argument means its value where the call is
                     # written: names inside it are not the callee's parameters
-                    val = self.process(tmp.value, scope)
+                    try:
+                        val = self.process(tmp.value, scope)
+                    except SyntaxError:
+                        # reported where the parameter is used, not taken
+                        # for a call that does not match this definition
+                        val = tmp.value
                 else:
                     val = arg
                 var = Variable(var.tokens[:-1] + [val])
@@ -122,7 +127,12 @@ class Mixin(Node):
                         return None
                     # the argument means its value where the call is
                     # written: names inside it are not the callee's parameters
-                    val = self.process(tmp.value, scope)
+                    try:
+                        val = self.process(tmp.value, scope)
+                    except SyntaxError:
+                        # reported where the parameter is used, not taken
+                        # for a call that does not match this definition
+                        val = tmp.value
                 else:
                     val = arg
                 var = Variable([var, None, val])
